@@ -144,4 +144,75 @@ theorem pairLoop_eq {β : Type} (isz : β → Nat) (sel : β → Nat → β) (ju
     · intro j hj
       rw [List.getElem?_set_ne (by omega)]; exact h4 j (by omega)
 
+theorem getLastD_eq_getD {β : Type} (l : List β) (d e : β) (h : l ≠ []) : l.getLast?.getD d = l.getD (l.length - 1) e := by
+  rw [List.getLast?_eq_getElem?]
+  have : l.length - 1 < l.length := by cases l with | nil => exact absurd rfl h | cons a l => simp
+  simp [List.getD, this]
+
+/-- the last loop of the product chain: `x[0] = t2[n-1]`, `x[i] = t1[i-1]·t2[n-i-1]` is `getLast t2 :: zipWith f t1.dropLast t2.reverse.tail` -/
+theorem zipLoop_eq {β : Type} (f : β → β → β) (junk d : β) (T1 T2 X : List β) (n : Nat) (hn1 : 1 ≤ n) (h1 : T1.length = n)
+    (h2 : T2.length = n) (hX : X.length = n) :
+    loopAcc 1 n (fun s i => s.set i ((fun (_ : β) i => f (T1.getD (i - 1) junk) (T2.getD (n - i - 1) junk)) (s.getD i junk) i))
+        (X.set 0 (T2.getD (n - 1) junk))
+      = (T2.getLast?.getD d) :: List.zipWith f T1.dropLast T2.reverse.tail := by
+  have hne : T2 ≠ [] := by intro h; subst h; simp at h2; omega
+  apply ptLoop_eq (fun (_ : β) i => f (T1.getD (i - 1) junk) (T2.getD (n - i - 1) junk)) junk _ _ 1 n hn1 (by simp [hX])
+  · simp [h1, h2]; omega
+  · intro j hj
+    have : j = 0 := by omega
+    subst this
+    rw [getLastD_eq_getD T2 d junk hne, h2, List.getElem?_set_self (by omega)]; rfl
+  · intro i hi hi1
+    have hin : i < n := by simpa [hX] using hi
+    obtain ⟨k, rfl⟩ : ∃ k, i = k + 1 := ⟨i - 1, by omega⟩
+    have a1 : T1.dropLast[k]? = some (T1[k]'(by omega)) := by
+      rw [List.getElem?_dropLast]; simp [h1]; omega
+    have a2 : T2.reverse.tail[k]? = some (T2[n - (k + 1) - 1]'(by omega)) := by
+      rw [List.getElem?_tail, List.getElem?_reverse (by omega)]
+      have e : T2.length - 1 - (k + 1) = n - (k + 1) - 1 := by omega
+      rw [List.getElem?_eq_getElem (by omega)]; simp only [e]
+    have b1 : T1.getD (k + 1 - 1) junk = T1[k]'(by omega) := by simp [List.getD]; rw [List.getElem?_eq_getElem (by omega)]; rfl
+    have b2 : T2.getD (n - (k + 1) - 1) junk = T2[n - (k + 1) - 1]'(by omega) := by
+      simp [List.getD]; rw [List.getElem?_eq_getElem (by omega)]; rfl
+    simp only [List.getElem?_cons_succ, List.getElem?_zipWith, a1, a2, b1, b2]
+
+variable {α : Type} (O : FpOps α)
+open SqiGen.Fp2Loops SqiGen
+
+theorem core_eq (junk x0 : Fp2 α) (rest : List (Fp2 α)) (n : Nat) (hn : n = rest.length + 1) (t1u t2u : List (Fp2 α))
+    (h1 : t1u.length = n) (h2 : t2u.length = n) (z : List Nat) (inv one zero : Fp2 α) :
+    let X := x0 :: rest
+    let t1_1 := t1u.set 0 (Fp2Ref.fp2_copy O (t1u.getD 0 junk) (X.getD 0 junk))
+    let t1_3 := loopAcc 1 n (fp2_batched_inv_loop_2 O junk n X t2u z inv one zero) t1_1
+    let inverse_2 := Fp2Ref.fp2_inv O (Fp2Ref.fp2_copy O inv (t1_3.getD (n - 1) junk))
+    let t2_1 := t2u.set 0 (Fp2Ref.fp2_copy O (t2u.getD 0 junk) inverse_2)
+    let t2_3 := loopAcc 1 n (fp2_batched_inv_loop_3 O junk n X t1_3 z inverse_2 one zero) t2_1
+    let x_3 := X.set 0 (Fp2Ref.fp2_copy O (X.getD 0 junk) (t2_3.getD (n - 1) junk))
+    loopAcc 1 n (fp2_batched_inv_loop_4 O junk n t1_3 t2_3 z inverse_2 one zero) x_3 = fp2_batched_inv_core O X := by
+  intro X t1_1 t1_3
+  have E2 : t1_3 = x0 :: scanFrom (fp2_mul O) x0 rest :=
+    scanLoop_eq (fp2_mul O) junk x0 rest (fun i => X.getD i junk) n hn (fun i h => by simp [X, List.getD, h])
+      t1_1 (by simp [t1_1, h1]) (by show (t1u.set 0 x0)[0]? = some x0; exact List.getElem?_set_self (by omega))
+  rw [E2]
+  intro inverse_2 t2_1 t2_3
+  have E3 : t2_3 = inverse_2 :: scanFrom (fp2_mul O) inverse_2 rest.reverse :=
+    scanLoop_eq (fp2_mul O) junk inverse_2 rest.reverse (fun i => X.getD (n - i) junk) n (by simp [hn])
+      (fun i h => by
+        have hi : i < rest.length := by simpa using h
+        have e : n - (i + 1) = (rest.length - 1 - i) + 1 := by omega
+        simp only [X, e, List.getD_cons_succ]
+        simp [List.getD, hi]; rw [List.getElem?_eq_getElem (by omega)]; simp)
+      t2_1 (by simp [t2_1, h2]) (by show (t2u.set 0 inverse_2)[0]? = some inverse_2; exact List.getElem?_set_self (by omega))
+  rw [E3]
+  intro x_3
+  have hT1 : (x0 :: scanFrom (fp2_mul O) x0 rest).length = n := by simp [scanFrom_length, hn]
+  have hinv : inverse_2 = fp2_inv O ((x0 :: scanFrom (fp2_mul O) x0 rest).getLast?.getD x0) := by
+    rw [getLastD_eq_getD _ x0 junk (by simp), hT1]; rfl
+  have hcore : fp2_batched_inv_core O X = ((inverse_2 :: scanFrom (fp2_mul O) inverse_2 rest.reverse).getLast?.getD inverse_2) ::
+      List.zipWith (fp2_mul O) (x0 :: scanFrom (fp2_mul O) x0 rest).dropLast
+        (inverse_2 :: scanFrom (fp2_mul O) inverse_2 rest.reverse).reverse.tail := by
+    rw [hinv]; rfl
+  rw [hcore]
+  exact zipLoop_eq (fp2_mul O) junk inverse_2 _ _ X n (by omega) hT1 (by simp [scanFrom_length, hn]) (by simp [X, hn])
+
 end SqiProofs.Fp2BatchGen
